@@ -142,5 +142,86 @@ pub fn record(runs: usize, path: &str) {
             }
         }
     }
+    // the copy sweep: `pair cA cB ; shuffle ; select ; verify` with constants of every pair of widths -- all types are fixed by the
+    // word constants, so both implementations infer them -- where the verdict is the last bit of A after it has been copied
+    // (swap: once; swap ; swap': twice, the second time out of an intermediate frame).  A is 0..01 (verdict ok) or 10..0 (jet failure).
+    fn const_of(nodes: &mut Vec<J>, t: &Ty, bits: &mut dyn Iterator<Item = bool>) -> usize {
+        if *t == Ty::Unit { nodes.push(json!(["unit", 0, 0])); return nodes.len(); }
+        if let Some(k) = (0..12).find(|k| *t == Ty::word(*k)) {
+            let b: Vec<u8> = (0..(1usize << k)).map(|_| bits.next().unwrap() as u8).collect();
+            nodes.push(json!(["word", 0, 0, b]));
+            return nodes.len();
+        }
+        let Ty::Prod(a, b) = t else { panic!("flat types only") };
+        let l = const_of(nodes, a, bits);
+        let r = const_of(nodes, b, bits);
+        nodes.push(json!(["pair", l, r]));
+        nodes.len()
+    }
+    fn last_bit(nodes: &mut Vec<J>, t: &Ty) -> usize {      // A -> 2: the last bit, along the right spine
+        let mut depth = 0;
+        let mut cur = t;
+        while let Ty::Prod(_, b) = cur { depth += 1; cur = b; }
+        nodes.push(json!(["iden", 0, 0]));
+        for _ in 0..depth { let c = nodes.len(); nodes.push(json!(["drop", c, 0])); }
+        nodes.len()
+    }
+    fn swap(nodes: &mut Vec<J>) -> usize {
+        let b = nodes.len();
+        nodes.extend([json!(["iden", 0, 0]), json!(["iden", 0, 0]), json!(["take", b + 1, 0]), json!(["drop", b + 2, 0]), json!(["pair", b + 4, b + 3])]);
+        nodes.len()
+    }
+    let widths: Vec<usize> = if runs > 1000 { (1..=33).collect() } else { (1..=15).chain([16, 17, 23, 24, 25]).collect() };
+    let env = &envs[0].1;
+    let mut kk = 0usize;
+    for &wa in &widths {
+        for &wb in [0usize, 1, 2, 3, 4, 5, 6, 7, 8, 9, 11, 13].iter() {
+            kk += 1;
+            let (ta, tb) = (crate::c05::ty_of_width(wa), crate::c05::ty_of_width(wb));
+            let last_one = kk % 3 != 0 || wa < 2;
+            let abits: Vec<bool> = (0..wa).map(|i| if last_one { i + 1 == wa } else { i == 0 }).collect();
+            let bbits: Vec<bool> = (0..wb).map(|_| rng.bool()).collect();
+            let mut nodes: Vec<J> = vec![];
+            let ca = const_of(&mut nodes, &ta, &mut abits.iter().copied());
+            let cb = const_of(&mut nodes, &tb, &mut bbits.iter().copied());
+            nodes.push(json!(["pair", ca, cb]));
+            let consts = nodes.len();
+            let s1 = swap(&mut nodes);
+            let twice = kk % 2 == 0;
+            let shuffled = if twice { let s2 = swap(&mut nodes); nodes.push(json!(["comp", s1, s2])); nodes.len() } else { s1 };
+            let lb = last_bit(&mut nodes, &ta);
+            nodes.push(json!([if twice { "take" } else { "drop" }, lb, 0]));
+            let sel = nodes.len();
+            nodes.push(json!(["jet", 0, 0, "verify"]));
+            let ver = nodes.len();
+            nodes.push(json!(["comp", sel, ver]));
+            let tail = nodes.len();
+            nodes.push(json!(["comp", shuffled, tail]));
+            let mid = nodes.len();
+            nodes.push(json!(["comp", consts, mid]));
+            let dag = json!(nodes);
+            let n = nodes.len();
+            let mut ty = vec![J::Null; n];
+            ty[n - 1] = json!([["1"], ["1"]]);
+            let aux = json!(vec![json!(["none"]); n]);
+            let ev = guarded(|| {
+                types::Context::with_context(|ctx| {
+                    let (redeem, _, _) = match build_typed(&ctx, Family::Elements, &dag, &json!(ty), &aux) { Ok(x) => x, Err(e) => return json!({"ev": "verdict", "rust": "panic", "msg": format!("copy sweep program does not build: {}", e), "dag": [], "ty": [], "aux": [], "visits": [], "c": "not-run", "c_stage": "", "c_err": 0, "c_eval": 1, "env": ""}) };
+                    let (sdag, sty, saux, map) = describe(&redeem);
+                    let run = execute(&redeem, &map, &Value::unit(), env, None, true);
+                    let (pb, wb_) = redeem.to_vec_with_witness();
+                    let c = c_pipeline(&pb, &wb_, Some(env.c_tx_env()), Some(CHECK_NONE));
+                    let c_eval = c.get("eval").and_then(|x| x.as_i64());
+                    json!({"ev": "verdict", "dag": sdag, "ty": sty, "aux": saux, "visits": run["visits"], "rust": run["res"],
+                           "c_stage": c["stage"], "c_err": c["err"], "c_eval": c_eval.unwrap_or(1), "c": c_eval.map(c_class).unwrap_or("not-run"),
+                           "env": envs[0].0, "msg": run.get("msg").cloned().unwrap_or(json!("")), "sweep": format!("copy {} {}", wa, wb)})
+                })
+            });
+            match ev {
+                Ok(e) => out.emit(&e),
+                Err(p) => out.emit(&json!({"ev": "verdict", "rust": "panic", "msg": p, "dag": [], "ty": [], "aux": [], "visits": [], "c": "not-run", "c_stage": "", "c_err": 0, "c_eval": 1, "env": "", "sweep": "copy"})),
+            }
+        }
+    }
     let _: Option<elements::LockTime> = None;
 }
